@@ -418,6 +418,14 @@ func init() {
 			e.out = append(e.out, outEvent{kind: "println", text: concat(e.sprintVal(a[0], true), Str("\n"))})
 			return Tu{isc(0), If{}}
 		},
+		"fmt.Fprintf": func(e *Engine, f *ssa.Function, a []Val) Val {
+			e.out = append(e.out, outEvent{kind: "print", format: "fprintf", text: e.sprintfVal(a[1], a[2])})
+			return Tu{isc(0), If{}}
+		},
+		"fmt.Fprint": func(e *Engine, f *ssa.Function, a []Val) Val {
+			e.out = append(e.out, outEvent{kind: "print", text: e.sprintVal(a[1], false)})
+			return Tu{isc(0), If{}}
+		},
 		"fmt.Printf": func(e *Engine, f *ssa.Function, a []Val) Val {
 			e.out = append(e.out, outEvent{kind: "printf", format: strArg(a[0]), text: e.sprintfVal(a[0], a[1])})
 			return Tu{isc(0), If{}}
@@ -462,6 +470,20 @@ func init() {
 			}
 			return SAtom{fn: "itoa", arg: s.t}
 		},
+		"strconv.Atoi": func(e *Engine, f *ssa.Function, a []Val) Val {
+			// the decimal rendering of a symbolic int parses back to that int (strconv is trusted);
+			// every other text goes through the real Atoi
+			if at, ok := a[0].(SAtom); ok && at.fn == "itoa" {
+				return Tu{Sc{w: 64, t: at.arg}, If{}}
+			}
+			if _, ok := a[0].(SAtom); ok {
+				e.unsupported("strconv.Atoi of a formatted symbolic non-integer")
+			}
+			if _, ok := a[0].(SCat); ok {
+				e.unsupported("strconv.Atoi of a text containing formatted symbolic numbers")
+			}
+			return e.callBody(f, a, nil)
+		},
 		"strconv.FormatBool": func(e *Engine, f *ssa.Function, a []Val) Val {
 			s := a[0].(Sc)
 			if s.t == nil {
@@ -504,12 +526,6 @@ func init() {
 				return Tu{Sc{w: 64, c: math.Float64bits(v)}, If{t: sentinelType, v: Str("strconv.ParseFloat: " + err.Error())}}
 			}
 			return Tu{Sc{w: 64, c: math.Float64bits(v)}, If{}}
-		},
-		"strconv.syntaxError": func(e *Engine, f *ssa.Function, a []Val) Val {
-			return If{t: sentinelType, v: Str("strconv: invalid syntax")}
-		},
-		"strconv.rangeError": func(e *Engine, f *ssa.Function, a []Val) Val {
-			return If{t: sentinelType, v: Str("strconv: value out of range")}
 		},
 		"strconv.cloneString":       func(e *Engine, f *ssa.Function, a []Val) Val { return a[0] },
 		"internal/stringslite.Clone": func(e *Engine, f *ssa.Function, a []Val) Val { return a[0] },
@@ -806,7 +822,7 @@ func (e *Engine) sprintVal(args Val, spaces bool) Val {
 func (e *Engine) sprintfVal(format Val, args Val) Val {
 	fs, ok := format.(Str)
 	if !ok {
-		e.unsupported("symbolic format string")
+		return e.sprintfSymbolic(format, args)
 	}
 	sl, _ := args.(Sl)
 	var out Val = Str("")
@@ -991,4 +1007,30 @@ func (e *Engine) deepEqualT(t types.Type, x, y Val) Sc {
 		e.unsupported("reflect.DeepEqual on %s", t)
 	}
 	return e.eqVal(t, x, y)
+}
+
+// sprintfSymbolic handles a format string with symbolic bytes: each byte is decided to be '%' or
+// not; a verb after a '%' is only followed to the extent needed to tell that the output differs
+// from the plain text (trailing % -> %!(NOVERB), %% -> %).
+func (e *Engine) sprintfSymbolic(format Val, args Val) Val {
+	bs := bytesOf(format)
+	var out Val = Str("")
+	for i := 0; i < len(bs); i++ {
+		isPct := e.byteEq(bs[i], u8('%'))
+		if !e.decide(isPct) {
+			out = concat(out, mkStr([]Sc{bs[i]}))
+			continue
+		}
+		if i == len(bs)-1 {
+			out = concat(out, Str("%!(NOVERB)"))
+			continue
+		}
+		if e.decide(e.byteEq(bs[i+1], u8('%'))) {
+			out = concat(out, Str("%"))
+			i++
+			continue
+		}
+		e.unsupported("format verb in a symbolic format string")
+	}
+	return out
 }
